@@ -19,8 +19,13 @@ prescribes on that state:
   * point and range reads: kvs in key order, more, count, header revision — on bounds (incl. empty,
     inverted, from-key, and bounds of the form key+\x00: the continue key of a paginated list, the end of a
     single-key range — judged on RAW keys), limits, count_only (also at an explicit revision: the count of
-    THAT revision), explicit revisions <= the committed one; a read below the compaction floor (`bcompact`)
-    must be refused, not answered;
+    THAT revision), explicit revisions <= the committed one — INCLUDING revision 1888, the partition-listing magic
+    of RPCServer.Range, whenever the request carries a limit or count_only (a page of a paginated list whose first
+    page had header revision 1888, a count at 1888: `range-at-magic-revision-answered-with-borders`, /repo e617587;
+    `magic_revision_case`, also C03's "all read revisions ... all limits" through the etcd endpoint); the UNLIMITED
+    plain range at revision exactly 1888 is still the in-band partition request: recorded as an observation
+    (`range-unlimited-at-magic-revision-is-partition-listing`), not condemned; a read below the compaction floor
+    (`bcompact`) must be refused, not answered;
   * a write without a value (create / update shape with an empty put value): refused with an error on every
     engine alike, nothing written, no revision consumed;
   * a watch-create in range-stream shape (negative start revision) without key or range_end: cancelled at
@@ -45,7 +50,8 @@ MAGIC = 1888
 COMPACT_KEY = b"compact_rev_key"
 
 # oracle hits that do not change the store: evaluation of the script continues after them
-FLAG_ONLY = {"range-count-limited", "range-count-bounds-unchecked", "txn-delete-lost-to-delete-stale-kv"}
+FLAG_ONLY = {"range-count-limited", "range-count-bounds-unchecked", "txn-delete-lost-to-delete-stale-kv",
+             "range-unlimited-at-magic-revision-is-partition-listing"}
 
 # deviations seen only under a real race that are RECORDED (evidence: coverage.observations) but not condemned by
 # this check unless known_findings.json lists their signature for C16 (then they are printed as KNOWN-FINDING):
@@ -53,7 +59,15 @@ FLAG_ONLY = {"range-count-limited", "range-count-bounds-unchecked", "txn-delete-
 #   concurrent DELETE of the same key is answered Succeeded=false with the key-value it had read before
 #   (backend.Delete: `if getErr != nil { resp.Kv = old }`), although the key no longer exists; etcd's failure
 #   branch would answer the empty read (guarded) / Succeeded=true with the empty read (unguarded).
-OBSERVED = {"txn-delete-lost-to-delete-stale-kv"}
+#   range-unlimited-at-magic-revision-is-partition-listing — an UNLIMITED, non-count range (range_end given) at
+#   revision exactly 1888 (GetPartitionMagic) is answered with the engine's partition borders (internal keys, empty
+#   values, mod revision 0) although 1888 is a committed revision of the store: the kubebrain-client partition
+#   protocol's own in-band signalling (theorem unlimited_plain_range_at_magic_is_partition_listing). Everything
+#   else at revision 1888 (limit > 0, count_only) must be an ordinary read since /repo e617587 and IS condemned
+#   otherwise (`range-at-magic-revision-answered-with-borders`).
+OBSERVED = {"txn-delete-lost-to-delete-stale-kv", "range-unlimited-at-magic-revision-is-partition-listing"}
+MAGIC_SIG = "range-at-magic-revision-answered-with-borders"
+MAGIC_OBS = "range-unlimited-at-magic-revision-is-partition-listing"
 
 
 def unhx(s):
@@ -738,7 +752,10 @@ def oracle(case, tolerated=()):
             limit, rev, flags = int(opts.get("limit", "0")), int(opts.get("rev", "0")), opts.get("flags", "")
             plain = not (set(flags) & set("k")) and not any(k in opts for k in ("sort", "minmod", "maxmod", "mincreate", "maxcreate"))
             R = committed if rev <= 0 else rev
-            in_domain = plain and key and R <= committed and not (end and rev == MAGIC) and \
+            # the in-band partition request of kv.go (/repo e617587): range_end, revision 1888, NO limit, NOT count_only.
+            # Every other request at revision 1888 (a page of a paginated list, a count) is an ordinary read: in the domain
+            partition_request = bool(end) and rev == MAGIC and limit == 0 and "c" not in flags
+            in_domain = plain and key and R <= committed and not partition_request and \
                 not ("c" in flags and rev < 0) and not ("c" in flags and not end)
             o = out.split()
             compacted = in_domain and rev > 0 and R < floor
@@ -749,6 +766,15 @@ def oracle(case, tolerated=()):
                 if in_domain and not refusal:
                     hit(i, "a read in the domain was answered with an error", "range-error")
                     break
+                continue
+            if partition_request and plain and key and R <= committed and R >= floor and not (key >= end or end == b"\x00"):
+                # the remaining ambiguity: 1888 IS a committed revision of this store, the answer is the partition listing
+                f = dict(x.split("=", 1) for x in o[1:])
+                kvs, count, more = ref.range(key, end, R, 0, False)
+                if parse_kvs(f["kvs"]) != kvs:
+                    hit(i, "an unlimited plain range at revision %d (a committed revision of this store) is answered with the partition "
+                           "borders %s, etcd prescribes kvs=%s: the in-band partition protocol of kubebrain-client (observation, not condemned)"
+                        % (R, f["kvs"][:160], kvs), MAGIC_OBS)
                 continue
             if not in_domain:
                 continue
@@ -773,6 +799,16 @@ def oracle(case, tolerated=()):
             if end and key >= end and end != b"\x00":
                 kvs, count, more = [], 0, False
             if got_kvs != kvs or got_more != more:
+                if end and rev == MAGIC and got_kvs and all(v == b"" and m == 0 for (_, v, m) in got_kvs):
+                    # (before /repo e617587 kv.go tested the revision before it looked at limit / count_only)
+                    hit(i, "a %s at revision %d — an ordinary committed revision of this store — was answered with the engine's partition borders "
+                           "(internal keys, empty values, mod revision 0, more=0, count = number of borders) instead of being read: etcd prescribes "
+                           "kvs=%s more=%d count=%d. Only the UNLIMITED, non-count range at the magic revision is the partition request; this is %s"
+                        % ("count" if "c" in flags else "limited range (limit=%d)" % limit, R, kvs, more, count,
+                           "a count at an explicit revision" if "c" in flags else
+                           "what kube-apiserver sends for the next page of a paginated list whose first page carried header revision %d" % R),
+                        MAGIC_SIG)
+                    break
                 hit(i, "etcd prescribes kvs=%s more=%d at revision %d" % (kvs, more, R), "range-kvs")
                 break
             if got_hdr != committed:
@@ -944,8 +980,6 @@ def bound_pool(keys):
 def gen_read(r, sh, keys, bounds):
     x = r.random()
     rev = 0 if r.random() < 0.5 else r.randint(INIT, sh.dealt)
-    if rev == MAGIC:
-        rev = 0
     if x < 0.3:
         return render_range(r.choice(keys + bounds[:3]), rev=rev)
     a, b = r.choice(bounds), r.choice(bounds)
@@ -960,6 +994,8 @@ def gen_read(r, sh, keys, bounds):
         a, b = hist.succ_bounds(r, keys, a, b)       # one in four: a continued page / a range ending just after a key
     if x < 0.85:
         lim = r.randint(1, len(keys) + 1) if r.random() < 0.6 else 0
+        if rev == MAGIC and lim == 0:
+            rev = 0                                  # (the unlimited plain range at the magic revision is the partition request)
         return render_range(a, b, limit=lim, rev=rev)
     # count_only as Kubernetes issues it (current revision), and at an explicit revision (the count of THAT revision)
     return render_range(a, b, rev=r.choice([0, rev]), flags="c")
@@ -971,17 +1007,16 @@ def gen_pages(r, sh, rev=0, n=None, lo=None, hi=None):
     its count: the concatenation of the pages must be the unpaginated list — no key twice, none missing"""
     lo, hi = lo or PREFIX + b"/", hi or PREFIX + b"0"
     n = n or r.randint(1, 3)
-    if rev == MAGIC:
-        rev = 0
     lines = [render_range(st, hi, limit=n, rev=rev) for st in hist.page_starts(sh.live_at(rev), lo, hi, n)]
+    # (the unlimited plain range at the magic revision is the partition request: recorded as an observation by the oracle)
     return lines + [render_range(lo, hi, rev=rev), render_range(lo, hi, rev=rev, flags="c")]
 
 
-def region_opt(keys):
+def region_opt(keys, init=INIT):
     """`regions=` for a tikv engine split into several regions at internal keys of the key pool"""
     import struct
     ks = sorted(keys)[1:3]
-    return " regions=" + ",".join(hx(b"\x57\xfb\x80\x8b" + k + b"$" + struct.pack(">Q", rv)) for k, rv in zip(ks, (0, INIT + 3)))
+    return " regions=" + ",".join(hx(b"\x57\xfb\x80\x8b" + k + b"$" + struct.pack(">Q", rv)) for k, rv in zip(ks, (0, init + 3)))
 
 
 def bounds_case(seed, i, engine):
@@ -1033,8 +1068,7 @@ def bounds_case(seed, i, engine):
                       render_range(H, r.choice(keys) + r.choice(hist.LOW_TAILS), rev=rev)]
     # count_only at explicit revisions: every revision of the history once
     for rev in r.sample(range(INIT + 1, sh.dealt + 1), 6) + [sh.dealt]:
-        if rev != MAGIC:
-            lines.append(render_range(lo, hi, rev=rev, flags="c"))
+        lines.append(render_range(lo, hi, rev=rev, flags="c"))
     # writes without a value
     live = [k for k in keys if k in sh.live]
     dead = [k for k in keys if k not in sh.live] + [b"/r/zz"]
@@ -1047,13 +1081,73 @@ def bounds_case(seed, i, engine):
     F = r.randint(old, sh.dealt)
     lines += ["bcompact %d" % F]
     for rev in (F - 1, max(INIT + 1, F - 3), F, sh.dealt):
-        if rev != MAGIC:
-            lines += [render_range(lo, hi, rev=rev, flags="c"), render_range(lo, hi, rev=rev)]
+        lines += [render_range(lo, hi, rev=rev, flags="c"), render_range(lo, hi, rev=rev)]
     lines += gen_pages(r, sh, rev=0, n=2) + gen_pages(r, sh, rev=F, n=1)
     # range-stream shape without range_end / without key
     lines += ["watch s1 %s - %d" % (hx(lo), -sh.dealt), "wevents s1", "watch s2 - %s %d" % (hx(hi), -sh.dealt), "wevents s2"]
     lines += gen_write_plain(r, sh, keys) + [FULL]
     return EtcdCase("etcd", lines, {"engine": engine, "kind": "bounds"})
+
+
+MAGIC_KEYS = [b"/r/a", b"/r/a/b", b"/r/a0", b"/r/a\xff", b"/r/b", b"/r/b/c", b"/r/c", b"/r/d", b"/r/e", b"/r/f/g", b"/r/h", b"/r/z"]
+
+
+def magic_revision_case(seed, i, engine):
+    """/repo e617587 (C16; C03 through the etcd endpoint: "all read revisions between the first and the current revision ...
+    all limits"): RPCServer.Range took EVERY ranged read at explicit revision 1888 (GetPartitionMagic) for the partition
+    request of a kubebrain-aware client — an ordinary revision on engines whose revisions count commits and in every store
+    initialised below it. The store is initialised at 1880, so the 8th write commits revision 1888: a dozen keys; then
+      * the natural form — page 1 of a paginated list at "latest" (header revision 1888), and kube-apiserver's continue
+        requests (start key lastKey+\x00, the same limit, revision 1888) for page sizes 1..3;
+      * paginated lists, counts (whole range, single-key ranges, low-byte bounds), a negative limit and point reads AT 1888,
+        and the same at 1887 (and 1889, once it exists) for contrast;
+      * more writes, so that 1888 becomes an OLD revision, and everything again.
+    Oracle: the Python reference on RAW keys — revision 1888 is INSIDE its domain whenever the request carries a limit or
+    count_only (signature `range-at-magic-revision-answered-with-borders`); the unlimited plain range at 1888, issued once
+    while 1888 is current and once when it is old, is the in-band partition request (recorded as an observation)."""
+    r = rng_for(seed, "c16/magic/%d" % i)
+    keys = sorted(MAGIC_KEYS)
+    init = MAGIC - 8
+    sh = Shadow(init)
+    lines = [cfg_line(engine, init) + (region_opt(keys, init) if engine == "tikv" and i % 2 == 1 else "")]
+    for k in r.sample(keys, 5):                      # 1881..1885: five keys exist
+        t = t_create(k, r.choice([b"v1", b"v2", b"v3"]))
+        sh.run(t)
+        lines += [render_txn(t), "rev"]
+    while sh.dealt < MAGIC:                          # 1886..1888
+        lines += gen_write_plain(r, sh, keys)
+    lo, hi = PREFIX + b"/", PREFIX + b"0"
+    S = hist.succ
+
+    def reads_at(rev):
+        live = sh.live_at(rev)
+        out = []
+        for n in (1, 2, 3):
+            out += [render_range(st, hi, limit=n, rev=rev) for st in hist.page_starts(live, lo, hi, n)]
+        out += [render_range(lo, hi, rev=rev, flags="c"), render_range(lo, hi, limit=len(live) + 1, rev=rev),
+                render_range(lo, hi, limit=-1, rev=rev)]
+        for k in r.sample(keys, 3):
+            out += [render_range(k, rev=rev), render_range(k, S(k), limit=1, rev=rev), render_range(k, S(k), rev=rev, flags="c"),
+                    render_range(S(k), hi, limit=2, rev=rev), render_range(S(k), hi, rev=rev, flags="c"),
+                    render_range(lo, k + b"\x01", limit=r.randint(1, 3), rev=rev), render_range(lo, k + b"#", rev=rev, flags="c")]
+        a, b = sorted(r.sample(keys, 2))
+        out += [render_range(a, b, limit=r.randint(1, 3), rev=rev), render_range(a, b, rev=rev, flags="c"),
+                render_range(b, a, limit=1, rev=rev)]
+        # the unlimited plain range: at revision 1888 the in-band partition request (observation), anywhere else a read
+        out.append(render_range(lo, hi, rev=rev))
+        return out
+    # the natural form: the committed revision IS 1888 — page 1 at "latest", the continue requests at revision 1888
+    for n in (1, 2, 3):
+        starts = hist.page_starts(sh.live_at(MAGIC), lo, hi, n)
+        lines.append(render_range(starts[0], hi, limit=n))
+        lines += [render_range(st, hi, limit=n, rev=MAGIC) for st in starts[1:]]
+    lines += reads_at(MAGIC) + reads_at(MAGIC - 1) + [FULL]
+    for _ in range(r.randint(2, 5)):                 # 1888 becomes an old revision
+        lines += gen_write_plain(r, sh, keys)
+    for rev in (MAGIC, MAGIC - 1, MAGIC + 1, 0):
+        lines += reads_at(rev)
+    lines += [FULL]
+    return EtcdCase("etcd", lines, {"engine": engine, "kind": "magic", "init": init, "properties": ["C16", "C03"]})
 
 
 def gen_write_plain(r, sh, keys):
@@ -1369,13 +1463,21 @@ def witness_cases(engine):
         # unvalidated request crashed the process there; the follow-up transaction and range show it is still serving
         w["range_stream_needs_borders_regions"] = [pre[0] + region_opt([A, B, C_, D][0:3] + [D])] + w["range_stream_needs_borders"][1:]
     cases = [EtcdCase("etcd", lines, {"engine": engine, "kind": "witness", "witness": name}) for name, lines in w.items()]
-    # the magic revision: a legal List at revision 1888 is answered with partition borders
-    # theorem magic_revision_hijacked (same three creates, from revision 1885)
-    magic = [cfg_line(engine, MAGIC - 3), render_txn(t_create(A, V1)), "rev", render_txn(t_create(B, V2)), "rev",
-             render_txn(t_create(C_, V3)), "rev",
-             render_range(PREFIX + b"/", PREFIX + b"0", rev=MAGIC), render_range(PREFIX + b"/", PREFIX + b"0", rev=MAGIC - 1),
-             render_range(A, rev=MAGIC), FULL]
+    # the magic revision (state sm3 of the theorems: the same three creates from revision 1885; the committed revision IS 1888)
+    pre_m = [cfg_line(engine, MAGIC - 3), render_txn(t_create(A, V1)), "rev", render_txn(t_create(B, V2)), "rev",
+             render_txn(t_create(C_, V3)), "rev"]
+    # theorems unlimited_plain_range_at_magic_is_partition_listing / magic_revision_hijacked: the UNLIMITED plain range at revision
+    # 1888 is still answered with partition borders (observation); at 1887 and as a point read it is a read
+    magic = pre_m + [render_range(PREFIX + b"/", PREFIX + b"0", rev=MAGIC), render_range(PREFIX + b"/", PREFIX + b"0", rev=MAGIC - 1),
+                     render_range(C_, rev=MAGIC), render_range(A, rev=MAGIC), FULL]
     cases.append(EtcdCase("etcd", magic, {"engine": engine, "kind": "witness", "witness": "obs_magic_revision", "init": MAGIC - 3}))
+    # theorem old_magic_swallowed_page_two (before /repo e617587: the continue request and the count at revision 1888 were answered
+    # with border keys): page 1 at "latest" (header 1888, more), the continue request, the count — same requests, same order
+    page2 = pre_m + [render_range(PREFIX + b"/", HI, limit=1), render_range(S(A), HI, limit=1, rev=MAGIC),
+                     render_range(PREFIX + b"/", HI, rev=MAGIC, flags="c"), render_range(S(B), HI, limit=1, rev=MAGIC),
+                     render_range(PREFIX + b"/", HI, limit=2, rev=MAGIC), render_range(S(A), HI, rev=MAGIC, flags="c"), FULL]
+    cases.append(EtcdCase("etcd", page2, {"engine": engine, "kind": "witness", "witness": "old_magic_swallowed_page_two", "init": MAGIC - 3,
+                                          "properties": ["C16", "C03"]}))
     return cases
 
 
@@ -1541,6 +1643,10 @@ def check(rep, tier, seed):
     # the cheap, most telling scripts first; then batches — the run stops at the first confirmed violation
     # (a tree on which model and implementation differ must not cost one timeout per remaining script)
     wit.sort(key=lambda c: 0 if c.meta.get("witness") == "range_stream_needs_borders_regions" else 1)   # (a crash says most)
+    # reads at the partition-listing magic revision 1888 (/repo e617587; C03 through the etcd endpoint as well)
+    n_magic = 2 if tier == "quick" else 21
+    magic_engines = ["memkv", "badger"] if tier == "quick" else ENGINES
+    wit = [magic_revision_case(seed, i, magic_engines[i % len(magic_engines)]) for i in range(n_magic)] + wit
     cases = wit + cases
     shapes = {}
     found = False
@@ -1594,6 +1700,17 @@ def check(rep, tier, seed):
                        "is counted as distinct by the hash of its text; all generated scripts contain writes and reads (non-trivial).")
     rep.cov["oracle_hits_by_signature"] = hits_by_sig
     rep.cov["observations"] = observations
+    OBS_TEXT = {
+        MAGIC_OBS: "an UNLIMITED, non-count range (range_end given) at revision exactly 1888 (GetPartitionMagic) is answered with the engine's "
+                   "partition borders although 1888 is a committed revision of the store: the in-band partition request of kubebrain-client "
+                   "(theorem unlimited_plain_range_at_magic_is_partition_listing); every request at revision 1888 with a limit or count_only is "
+                   "an ordinary read (/repo e617587) and is judged as one",
+        "txn-delete-lost-to-delete-stale-kv": "a delete that loses its compare-and-swap to a concurrent delete of the same key carries the key-value it had read",
+    }
+    rep.cov["observation_texts"] = {sig: OBS_TEXT.get(sig, "") for sig in observations}
+    for sig in sorted(observations):
+        print("OBSERVATION: property=C16 %s [signature %s, %d time(s); recorded in coverage.observations, not condemned]"
+              % (OBS_TEXT.get(sig, ""), sig, observations[sig]))
     rep.cov["scripts_cut_short_by_rpc_deadline"] = inconclusive
     rep.assumptions += [
         "this node is the leader and revision sync succeeds (production peer service over an election stub)",
@@ -1608,7 +1725,9 @@ def check(rep, tier, seed):
         "count_only at the current or an explicit revision; a range / count below the compaction floor must be refused; a write without a "
         "value must be refused (consuming no revision); a range-stream watch-create without key or range_end must be cancelled",
         "outside the quantifier, checked for model/implementation correspondence only: keys_only, sort order, min/max revision filters, "
-        "the partition-listing magic revision 1888, header revisions of failed transactions, "
+        "the UNLIMITED plain range at the partition-listing magic revision 1888 (recorded in coverage.observations; every request at "
+        "revision 1888 that carries a limit or count_only is INSIDE the quantifier — C16 and C03 through the etcd endpoint, "
+        "`magic_revision_case`), header revisions of failed transactions, "
         "create_revision / version / lease of returned key-values, the number and kind of response ops",
         "a transaction answered 'uncertain' because the server's own 1 s deadline expired under load ends the judgement of its script (counted in scripts_cut_short_by_rpc_deadline)",
         "a watch refused at registration (event cache does not reach back to the start revision) is a forced relist, not a wrong event stream",
